@@ -179,6 +179,7 @@ type c03Violation struct {
 type c03Result struct {
 	Case   string           `json:"case"`
 	Lines  [][]int64        `json:"lines"`
+	Obs    [][]int64        `json:"obs"` // nil for a history case: every line is answered 0 and a 777 line is added
 	Viol   []c03Violation   `json:"viol"`
 	Stats  map[string]int64 `json:"stats"`
 	Finger string           `json:"finger"`
@@ -199,6 +200,7 @@ type c03Cfg struct {
 	dur                        time.Duration
 	slowApply                  int
 	readPct, ifTermPct         int
+	flood                      bool
 }
 
 func c03GenCfg(r *vw.Rng) c03Cfg {
@@ -230,6 +232,7 @@ func c03GenCfg(r *vw.Rng) c03Cfg {
 	c.dur = time.Duration(r.Range(1800, 2600)) * time.Millisecond
 	c.readPct = r.PickInt(20, 30, 45)
 	c.ifTermPct = r.PickInt(15, 25, 40)
+	c.flood = r.Chance(1, 3)
 	return c
 }
 
@@ -245,6 +248,10 @@ type c03Cluster struct {
 	mu       sync.Mutex
 	ops      []*c03Op
 	stop     int32
+	floods   int
+	reaping  int32
+	flooded  int64 // flood calls concluded with a definite error (kept as a count only unless applied somewhere)
+	floodDef []*c03Op
 }
 
 func (c *c03Cluster) stamp() int64 { return atomic.AddInt64(&c.clock, 1) }
@@ -418,6 +425,11 @@ func (c *c03Cluster) client(r *vw.Rng, wg *sync.WaitGroup, watchers *sync.WaitGr
 				case <-p.Done:
 					c.finish(op, p)
 				case <-abort:
+					select {
+					case <-p.Done:
+						c.finish(op, p)
+					default:
+					}
 				}
 			}()
 		}
@@ -430,14 +442,117 @@ func (c *c03Cluster) client(r *vw.Rng, wg *sync.WaitGroup, watchers *sync.WaitGr
 	}
 }
 
-func (c *c03Cluster) nemesis(r *vw.Rng, wg *sync.WaitGroup, stats map[string]int64) {
+// floodElection: isolate a leader, make one follower deaf (it can send but hears nothing) so that its first
+// elections fail, and meanwhile keep its proposal channel full of term-conditional proposals that name the terms
+// it is about to go through; then let it hear again. If it wins a later election it finds in its channel
+// proposals that name an earlier term: they must be rejected with ErrTermMismatch when they are taken out.
+func (c *c03Cluster) floodElection(r *vw.Rng, watchers *sync.WaitGroup, abort chan struct{}) bool {
+	ls := c.believedLeaders()
+	if len(ls) == 0 {
+		return false
+	}
+	n := c.cfg.n
+	l := ls[r.Intn(len(ls))]
+	f := (l + 1 + r.Intn(n-1)) % n
+	for j := 0; j < n; j++ {
+		if j != l {
+			c.link(l, j, 1)
+			c.link(j, l, 1)
+		}
+		if j != f {
+			c.link(j, f, 1)
+		}
+	}
+	tick := c.cfg.tick
+	deaf := time.Duration(c.cfg.follower+c.cfg.elecRange+c.cfg.candidate+c.cfg.elecRange/2) * tick
+	window := deaf + time.Duration(2*(c.cfg.candidate+c.cfg.elecRange))*tick
+	until := time.Now().Add(window)
+	var fw sync.WaitGroup
+	for g := 0; g < 6; g++ {
+		fw.Add(1)
+		go func(g int) {
+			defer fw.Done()
+			type rec struct {
+				op *c03Op
+				p  *Pending
+			}
+			var recs []rec
+			var term uint64
+			for i := 0; i < 40000; i++ {
+				if i%32 == 0 {
+					if !time.Now().Before(until) || atomic.LoadInt32(&c.stop) != 0 {
+						break
+					}
+					var lead bool
+					lead, term = c.fsms[f].leaderTerm()
+					if lead {
+						break
+					}
+				}
+				op := &c03Op{ID: atomic.AddInt64(&c.nextID, 1), Kind: c03IfTerm, Node: f, Out: c03Indef}
+				op.ReqTerm = int64(term + 1 + uint64((i+g)%3))
+				var cmd [8]byte
+				binary.LittleEndian.PutUint64(cmd[:], uint64(op.ID))
+				op.Inv = c.stamp()
+				p := c.nodes[f].ProposeIfTerm(cmd[:], uint64(op.ReqTerm))
+				recs = append(recs, rec{op, p})
+			}
+			// reap: the return stamp is taken after the conclusion was observed (late, which is allowed)
+			watchers.Add(1)
+			atomic.AddInt32(&c.reaping, 1)
+			go func() {
+				defer watchers.Done()
+				defer atomic.AddInt32(&c.reaping, -1)
+				var keep, def []*c03Op
+				for _, rc := range recs {
+					select {
+					case <-rc.p.Done:
+						c.finish(rc.op, rc.p)
+					case <-abort:
+						select {
+						case <-rc.p.Done:
+							c.finish(rc.op, rc.p)
+						default:
+						}
+					}
+					if atomic.LoadInt32(&rc.op.done) == 1 && rc.op.Out == c03Def {
+						def = append(def, rc.op)
+					} else {
+						keep = append(keep, rc.op)
+					}
+				}
+				c.mu.Lock()
+				c.ops = append(c.ops, keep...)
+				c.floodDef = append(c.floodDef, def...)
+				c.mu.Unlock()
+			}()
+		}(g)
+	}
+	time.Sleep(deaf)
+	for j := 0; j < n; j++ {
+		if j != f && j != l {
+			c.link(j, f, 0)
+		}
+	}
+	fw.Wait()
+	c.floods++
+	return true
+}
+
+func (c *c03Cluster) nemesis(r *vw.Rng, wg *sync.WaitGroup, stats map[string]int64, watchers *sync.WaitGroup, abort chan struct{}) {
 	defer wg.Done()
-	for atomic.LoadInt32(&c.stop) == 0 {
+	for round := 0; atomic.LoadInt32(&c.stop) == 0; round++ {
 		time.Sleep(time.Duration(r.Range(60, 350)) * time.Millisecond)
 		if atomic.LoadInt32(&c.stop) != 0 {
 			return
 		}
 		n := c.cfg.n
+		if c.cfg.flood && c.floods < 2 && round%3 == 1 {
+			if c.floodElection(r, watchers, abort) {
+				stats["nemesis_flood_election"]++
+			}
+			continue
+		}
 		switch r.Intn(8) {
 		case 0, 1: // isolate a node that believes it is the leader (symmetric)
 			ls := c.believedLeaders()
@@ -529,7 +644,7 @@ func c03RunCluster(caseIdx int) *c03Result {
 		go c.client(rng.Fork(uint64(1000+i)), &cw, &watchers, abort)
 	}
 	nw.Add(1)
-	go c.nemesis(rng.Fork(999), &nw, nstats)
+	go c.nemesis(rng.Fork(999), &nw, nstats, &watchers, abort)
 	time.Sleep(cfg.dur)
 	atomic.StoreInt32(&c.stop, 1)
 	nw.Wait()
@@ -550,6 +665,9 @@ func c03RunCluster(caseIdx int) *c03Result {
 
 	// every Pending must conclude once the group is whole again (generous grace: the machine may be loaded)
 	allDone := func() bool {
+		if atomic.LoadInt32(&c.reaping) != 0 {
+			return false
+		}
 		c.mu.Lock()
 		defer c.mu.Unlock()
 		for _, op := range c.ops {
@@ -591,6 +709,11 @@ func c03RunCluster(caseIdx int) *c03Result {
 				case <-p.Done:
 					c.finish(op, p)
 				case <-abort:
+					select {
+					case <-p.Done:
+						c.finish(op, p)
+					default:
+					}
 				}
 			}()
 		}
@@ -648,6 +771,27 @@ func c03RunCluster(caseIdx int) *c03Result {
 	if !converged {
 		res.Stats["replica_not_caught_up_at_end"]++
 	}
+
+	// flood calls that were rejected with a definite error and are in no replica state cannot influence any
+	// clause; they are kept as a count. Those that ARE in a replica state stay in the history (a violation).
+	inState := map[int64]bool{}
+	for _, st := range states {
+		for k := 0; k < len(st.flat); k += 2 {
+			inState[st.flat[k]] = true
+		}
+	}
+	for _, op := range c.floodDef {
+		if inState[op.ID] {
+			ops = append(ops, op)
+		} else {
+			res.Stats["flood_calls_rejected_definitely"]++
+			if op.Err == ErrTermMismatch.Error() {
+				res.Stats["flood_calls_rejected_term_mismatch_in_leader_loop"]++
+			}
+		}
+	}
+	sort.Slice(ops, func(i, j int) bool { return ops[i].Inv < ops[j].Inv })
+	res.Stats["flood_elections"] += int64(c.floods)
 
 	// ---- lines for the Coq checker
 	for _, op := range ops {
@@ -892,13 +1036,125 @@ func c03Monitors(ops []*c03Op, states [][]int64, applies [][]c03Apply,
 	}
 }
 
+// ---------------------------------------------------------------- layer-model correspondence (single real node)
+
+// c03RunLayer drives one real one-member group with a sequential script of Propose / ProposeIfTerm / VerifyRead,
+// first while the node is not leading (no membership yet), then as leader; every conclusion is compared with the
+// prediction of the Coq layer model (Layer.v: term filter inside the loop, FIFO pairing, FSM result).
+func c03RunLayer(idx int) *c03Result {
+	rng := vw.NewRng(vw.Seed()).Fork(uint64(100000 + idx))
+	id := "layer" + strconv.Itoa(idx)
+	res := &c03Result{Case: id, Stats: map[string]int64{}, Obs: [][]int64{}}
+	cfg := Config{ID: "solo", ClusterID: "c03-" + id, FollowerTimeout: 6, CandidateTimeout: 6, HeartbeatTimeout: 2,
+		RandomElectionRange: 3, DurationPerTick: time.Millisecond, MaxNumEntsPerAppEnts: 10,
+		MaximumProposalBatch: uint32(rng.PickInt(1, 4))}
+	node := NewRaft(cfg, newStorage(), NewMemTransport(TransportConfig{Addr: "solo", MsgChanCap: 64}))
+	fsm := &c03FSM{}
+	node.Start(fsm)
+	pid := int64(0)
+	issue := func(leading bool, cur uint64) bool {
+		pid++
+		kind := rng.PickInt(c03Propose, c03IfTerm, c03IfTerm, c03Read)
+		var req uint64
+		if kind == c03IfTerm {
+			switch rng.Intn(6) {
+			case 0:
+				req = 0
+			case 1:
+				req = cur + 1
+			case 2:
+				req = cur + uint64(rng.Range(2, 9))
+			case 3:
+				if cur > 1 {
+					req = cur - 1
+				} else {
+					req = cur + 3
+				}
+			default:
+				req = cur
+			}
+		}
+		var cmd [8]byte
+		binary.LittleEndian.PutUint64(cmd[:], uint64(pid))
+		var p *Pending
+		switch kind {
+		case c03Propose:
+			p = node.Propose(cmd[:])
+		case c03IfTerm:
+			p = node.ProposeIfTerm(cmd[:], req)
+		default:
+			p = node.VerifyRead()
+		}
+		lead := int64(0)
+		if leading {
+			lead = 1
+		}
+		line := []int64{3, int64(kind), pid, pid, int64(req), int64(cur), lead}
+		var obs []int64
+		select {
+		case <-p.Done:
+			switch {
+			case p.Err == nil && kind == c03Read:
+				obs = []int64{1, 0}
+			case p.Err == nil:
+				r, _ := p.Res.(c03Res)
+				obs = []int64{1, r.n}
+			case p.Err == ErrNodeNotLeader:
+				obs = []int64{2, 0}
+			case p.Err == ErrTermMismatch:
+				obs = []int64{3, 0}
+			case p.Err == ErrNotLeaderAnymore:
+				obs = []int64{4, 0}
+			default:
+				obs = []int64{9, 0}
+			}
+		case <-time.After(10 * time.Second):
+			obs = []int64{8, 0}
+			res.Viol = append(res.Viol, c03Violation{"layer/pending-never-concluded", "a Pending of a one-member group was not concluded within 10 s",
+				map[string]interface{}{"line": line}})
+		}
+		res.Lines = append(res.Lines, line)
+		res.Obs = append(res.Obs, obs)
+		res.Stats[fmt.Sprintf("layer_obs_%d", obs[0])]++
+		return obs[0] != 8
+	}
+	for j := 0; j < rng.Range(2, 6); j++ {
+		if !issue(false, 0) {
+			return res
+		}
+	}
+	node.ProposeInitialMembership([]string{"solo"})
+	t0 := time.Now()
+	for time.Since(t0) < 10*time.Second {
+		if l, _ := fsm.leaderTerm(); l {
+			break
+		}
+		time.Sleep(time.Millisecond)
+	}
+	_, cur := fsm.leaderTerm()
+	for j := 0; j < rng.Range(30, 60); j++ {
+		if !issue(true, cur) {
+			return res
+		}
+	}
+	res.Stats["layer_cases"]++
+	res.Finger = fmt.Sprintf("layer %d lines batch %d", len(res.Lines), cfg.MaximumProposalBatch)
+	res.Sample = fmt.Sprintf("case %s: one-member group, %d scripted requests compared with the layer model", id, len(res.Lines))
+	return res
+}
+
 // ---------------------------------------------------------------- parent / child plumbing
 
 func c03Child(t *testing.T) {
 	flag.Set("logtostderr", "true")
 	flag.Set("stderrthreshold", "FATAL")
 	idx, _ := strconv.Atoi(os.Getenv("VERIF_C03_CHILD"))
-	res := c03RunCluster(idx)
+	var res *c03Result
+	if os.Getenv("VERIF_C03_LAYER") != "" {
+		res = c03RunLayer(idx)
+	} else {
+		res = c03RunCluster(idx)
+	}
 	b, _ := json.Marshal(res)
 	if err := ioutil.WriteFile(os.Getenv("VERIF_C03_RESULT"), b, 0o644); err != nil {
 		t.Fatal(err)
@@ -913,7 +1169,15 @@ func TestVerifC03(t *testing.T) {
 		c03Child(t)
 		return
 	}
-	ncases := vw.Scale(24, 1200)
+	nhist := vw.Scale(24, 1200)
+	nlayer := vw.Scale(6, 100)
+	ncases := nhist + nlayer
+	caseID := func(i int) string {
+		if i >= nhist {
+			return "layer" + strconv.Itoa(i-nhist)
+		}
+		return "c" + strconv.Itoa(i)
+	}
 	par := 8
 	if s := os.Getenv("VERIF_C03_PAR"); s != "" {
 		par, _ = strconv.Atoi(s)
@@ -929,7 +1193,7 @@ func TestVerifC03(t *testing.T) {
 	sem := make(chan struct{}, par)
 	var wg sync.WaitGroup
 	for i := 0; i < ncases; i++ {
-		id := "c" + strconv.Itoa(i)
+		id := caseID(i)
 		if !vw.CaseSelected(id) {
 			continue
 		}
@@ -941,6 +1205,9 @@ func TestVerifC03(t *testing.T) {
 			out := filepath.Join(tmp, fmt.Sprintf("r%d.json", i))
 			cmd := exec.Command(os.Args[0], "-test.run", "^TestVerifC03$", "-test.timeout", "180s")
 			cmd.Env = append(os.Environ(), "VERIF_C03_CHILD="+strconv.Itoa(i), "VERIF_C03_RESULT="+out)
+			if i >= nhist {
+				cmd.Env = append(cmd.Env, "VERIF_C03_CHILD="+strconv.Itoa(i-nhist), "VERIF_C03_LAYER=1")
+			}
 			var stderr bytes.Buffer
 			cmd.Stderr = &stderr
 			cmd.Stdout = &stderr
@@ -964,7 +1231,7 @@ func TestVerifC03(t *testing.T) {
 
 	tr := vw.OpenTrace("C03.trace")
 	for i := 0; i < ncases; i++ {
-		id := "c" + strconv.Itoa(i)
+		id := caseID(i)
 		if crashes[i] != "" {
 			sig := "crash/other"
 			switch {
@@ -989,12 +1256,19 @@ func TestVerifC03(t *testing.T) {
 			continue
 		}
 		tr.Case(id)
-		for _, l := range r.Lines {
-			tr.Op(l...)
-			tr.Obs(0)
+		if r.Obs != nil {
+			for k, l := range r.Lines {
+				tr.Op(l...)
+				tr.Obs(r.Obs[k]...)
+			}
+		} else {
+			for _, l := range r.Lines {
+				tr.Op(l...)
+				tr.Obs(0)
+			}
+			tr.Op(777)
+			tr.Obs(777, 1)
 		}
-		tr.Op(777)
-		tr.Obs(777, 1)
 		for _, v := range r.Viol {
 			vw.Report(vw.Violation{Property: "C03", Signature: v.Sig, What: v.What, Case: id, Detail: v.Detail})
 		}
